@@ -281,6 +281,7 @@ func init() {
 		pool := lspTextPool(t, tier)
 		c := &C19Case{}
 		open := map[string]string{}
+		lastPos := map[string][2]int{}
 		n := 6 + gen.Uniform(t, "nops", 25)
 		uris := gen.Pick(t, "uriset", lspURISets)
 		for i := 0; i < n; i++ {
@@ -306,7 +307,14 @@ func init() {
 				}
 				open[uri] = op.Texts[len(op.Texts)-1]
 			case "hover", "definition":
-				op.Line, op.Char = pickPosition(t, open[uri])
+				// often the position asked last on this document (the text may have been
+				// replaced in between: nothing remembered per position may survive that)
+				if lp, ok := lastPos[uri]; ok && gen.Chance(t, "pos.same", 40) {
+					op.Line, op.Char = lp[0], lp[1]
+				} else {
+					op.Line, op.Char = pickPosition(t, open[uri])
+				}
+				lastPos[uri] = [2]int{op.Line, op.Char}
 			}
 			c.Ops = append(c.Ops, op)
 		}
